@@ -259,6 +259,9 @@ def declarations():
     d('color:#f00', 'color', ['#f00'], (('color', 255, 0, 0, 1.0),))
     d('color:rgb(1,2,3)', 'color', [Word('rgb', simple=False), '(', O(), '1', O(), ',', O(), '2', O(), ',', O(), '3', O(), ')'], (('color', 1, 2, 3, 1.0),))
     d('x:f(1,a)', 'x', [Word('f', simple=False), '(', O(), '1', O(), ',', O(), 'a', O(), ')'], (('func', 'f(', (_num('1'), ('op', ','), ('ident', 'a'))),))
+    # one function inside another: calc() as argument of a generic function
+    d('x:f(calc(1px + 2%),3)', 'x', [Word('f', simple=False), '(', O(), Word('calc', simple=False), '(', O(), '1px', R(), '+', R(), '2%', O(), ')', O(), ',', O(), '3', O(), ')'],
+      (('func', 'f(', (('calc', (_num('1', 'px'), ('op', '+'), _num('2', '%'))), ('op', ','), _num('3'))),))
     d('width:calc(1px + 2%)', 'width', [Word('calc', simple=False), '(', O(), '1px', R(), '+', R(), '2%', O(), ')'],
       (('calc', (_num('1', 'px'), ('op', '+'), _num('2', '%'))),))
     d('width:calc(2px*3)', 'width', [Word('calc', simple=False), '(', O(), '2px', O(), '*', O(), '3', O(), ')'],
